@@ -13,7 +13,9 @@ Curves2 == { <<P(0,0), P(2,0)>>, <<P(0,0), P(2,0), P(2,3)>>, <<P(0,0), P(3,4), P
              <<P(0,0), P(1,0), P(3,0), P(3,2)>>, <<P(0,1), P(3,1), P(3,3), P(1,3), P(1,0)>>,
              <<P(0,0), P(2,0), P(2,2), P(0,2)>>, <<P(0,0), P(4,0), P(4,1), P(0,1), P(0,2), P(4,2)>>,
              <<P(1,1), P(3,1), P(1,1), P(1,3)>> }
-Closed2 == { <<P(0,0), P(2,0), P(2,2), P(0,2)>>, <<P(0,0), P(4,0), P(4,3)>> }
+Closed2 == { <<P(0,0), P(2,0), P(2,2), P(0,2)>>, <<P(0,0), P(4,0), P(4,3)>>,
+             \* more than four edges: the search tree visits the last edge before the first one at the seam
+             <<P(0,0), P(2,0), P(2,1), P(4,1), P(4,3), P(1,3), P(1,2), P(0,2)>> }
 Curves3 == { <<P3(0,0,0), P3(2,0,0), P3(2,0,3)>>, <<P3(0,0,0), P3(0,3,4), P3(2,3,4), P3(2,0,0)>>,
              <<P3(1,1,0), P3(1,1,2), P3(1,3,2), P3(3,3,2)>> }
 
